@@ -86,6 +86,19 @@ func ExactDiff(want, got interface{}) []string {
 	return out
 }
 
+// ContentDiff is ExactDiff without the slice capacities and the spare capacity: "the property is unchanged" is a statement
+// about what the property holds, an implementation is free to re-allocate a list it does not change.
+func ContentDiff(want, got interface{}) []string {
+	var out []string
+	ignoreCapacity = true
+	exactDiff("", reflect.ValueOf(want), reflect.ValueOf(got), &out, 0)
+	ignoreCapacity = false
+	return out
+}
+
+// ignoreCapacity is only flipped by ContentDiff; the checks that use it are single-goroutine.
+var ignoreCapacity bool
+
 func exactDiff(path string, w, g reflect.Value, out *[]string, depth int) {
 	if len(*out) > 20 || depth > 60 {
 		return
@@ -133,6 +146,12 @@ func exactDiff(path string, w, g reflect.Value, out *[]string, depth int) {
 		}
 		if w.Len() != g.Len() {
 			*out = append(*out, fmt.Sprintf("%s: length %d became %d (%s -> %s)", path, w.Len(), g.Len(), describe(w), describe(g)))
+			return
+		}
+		if ignoreCapacity {
+			for i := 0; i < w.Len(); i++ {
+				exactDiff(fmt.Sprintf("%s[%d]", path, i), w.Index(i), g.Index(i), out, depth+1)
+			}
 			return
 		}
 		if w.Cap() != g.Cap() {
